@@ -255,6 +255,52 @@ def handle (j : Json) : Except String Json := do
       | .error .refused => pure (Json.mkObj [("err", jStr "refused")])
       | .error .typeError => pure (Json.mkObj [("err", jStr "typeError")])
     pure (Json.mkObj [("values", jArr outs)])
+  | "param_history" =>
+    -- a history of one Parameters object: read / set / add / dump, step by step
+    let algos ← strList (← j.getObjVal? "algos")
+    let defaults ← parseEntries j "defaults"
+    let ops ← getArr j "ops"
+    let mut st : Params.PState := ⟨defaults, none⟩
+    let mut labels : List Json := []
+    let mut docs : List Json := []
+    let mut stopped := false
+    for o in ops.toList do
+      if stopped then continue
+      let kind ← getStr o "op"
+      let (op, label) ← (match kind with
+        | "read" => do
+          let d ← parseDoc (← o.getObjVal? "doc")
+          let l := match Params.importDocument algos st.params d with
+            | .ok _ => "ok" | .error .refused => "refused" | .error .typeError => "typeError"
+          pure (Params.POp.read d, l)
+        | "set" => do
+          let sec : Option String ←
+            match o.getObjVal? "sec" with
+            | .ok Json.null => pure none
+            | .ok (Json.str s) => pure (some s)
+            | _ => throw "bad-op"
+          let name ← getStr o "name"
+          let v ← parseVal (← o.getObjVal? "value")
+          let l := match Params.setValue algos st.params sec name v with
+            | .ok _ => "ok" | .error .refused => "refused" | .error .typeError => "typeError"
+          pure (Params.POp.set sec name v, l)
+        | "add" => do
+          let es ← parseEntries o "entry"
+          match es with
+          | [e] =>
+            let l := match Params.addParameter algos st.params e with
+              | .ok _ => "ok" | .error .refused => "refused" | .error .typeError => "typeError"
+            pure (Params.POp.add e, l)
+          | _ => throw "bad-op"
+        | "dump" => pure (Params.POp.dump, "ok")
+        | _ => throw "bad-op" : Except String (Params.POp × String))
+      labels := labels ++ [jStr label]
+      if kind == "dump" then docs := docs ++ [docJson (Params.dumpDoc st)]
+      match Params.stepP algos st op with
+      | some s' => st := s'
+      | none => stopped := true
+    pure (Json.mkObj [("steps", jArr labels), ("docs", jArr docs), ("stopped", jBool stopped),
+      ("state", jArr (st.params.map entryJson))])
   | "roundtrip" =>
     -- set a value, dump, read into a fresh default table
     let algos ← strList (← j.getObjVal? "algos")
